@@ -11,5 +11,7 @@ CONSTANTS
   Targets = {"v1", "v2", "v3"}
   WriteBack = FALSE
   RemovePart = FALSE
+  LockedMerge = TRUE
+  WithPar = FALSE
   MaxOps = 5
   WithFaults = FALSE
